@@ -221,7 +221,7 @@ tys!(
     VecVecU8, BTreeMapU32Str, Duration, IpAddr, SocketAddr, IntTy, TaggedU32, Tokens, Point, MapRec, Gappy, Color,
     Shape, Wrapper, Borrowed, Tree, TaggedRec, EncOps, BoxStr, CowStr, RangeU32, BoundI16, Wrapping, CString, Path, Empty,
     ArrIterExact, ArrIterFilter, MapIterExact, MapIterFilter, BTreeSetU16, VecDequeStr, LinkedListU8, BinaryHeapI32, HashMapFixed,
-    HashSetFixed, SystemTime, CellU16, RefCellStr, NonZeroU32, AtomicI64, TagTy, SocketAddrV6, RangeInclusiveI8, Phantom, Slice,
+    HashSetFixed, SystemTime, CellU16, RefCellStr, NonZeroU32, AtomicI64, TagTy, SocketAddrV6, RangeInclusiveI8, Phantom, Slice, SelfDesc, Embedded,
 );
 
 #[derive(Clone, Debug, PartialEq, Eq)]
@@ -354,6 +354,17 @@ pub fn gen_shape(r: &mut Rng, thorough: bool) -> RunShape {
     let profile = if marathon || history { r.below(2) } else { r.below(4) };
     let roomy_init = if (history || big) && r.chance(1, 2) { Some(r.range(65_600, 200_000) as u32) } else { None };
     RunShape { big, history, marathon, nframes, profile, roomy_init }
+}
+
+/// How often a fault lane is replayed: long histories get fault storms that last as long as the history does.
+pub fn gen_repeat(r: &mut Rng, long_history: bool) -> u32 {
+    if long_history {
+        *r.pick(&[0u32, 2, 10, 40, 120])
+    } else if r.chance(1, 10) {
+        1 + r.below(4) as u32
+    } else {
+        0
+    }
 }
 
 impl RunShape {
@@ -748,6 +759,13 @@ pub fn with_value<V: EncVisitor>(spec: &ValSpec, vis: V) -> V::Out {
             let v: Vec<u16> = (0..n.min(2000)).map(|_| boundary_u64(r) as u16).collect();
             vis.visit(&v.as_slice())
         }
+        // payloads that START with bytes a transport might be tempted to interpret: tag 55799 ("self-described CBOR",
+        // d9 d9 f7) and tag 24 (embedded CBOR); to the framing layer they are opaque bytes like any others
+        Ty::SelfDesc => vis.visit(&Tagged::<55799, String>::from(gen_string(r, n))),
+        Ty::Embedded => {
+            let inner = minicbor::to_vec(gen_string(r, n)).unwrap_or_default();
+            vis.visit(&Tagged::<24, ByteVec>::from(ByteVec::from(inner)))
+        }
         // a value whose Encode impl writes nothing at all (zero-length encoding)
         Ty::Empty => vis.visit(&EncOps(Vec::new())),
     }
@@ -795,11 +813,13 @@ family!(FMapRec, MapRec, MapRec);
 family!(FGappy, Gappy, Gappy);
 family!(FShape, Shape, Shape);
 family!(FUnit, Unit, ());
+family!(FSelfDesc, SelfDesc, Tagged<55799, &'a str>);
+family!(FEmbedded, Embedded, Tagged<24, &'a ByteSlice>);
 
 /// Types that have a decode family; the I/O workloads draw from these.
 pub const IO_TYS: &[Ty] = &[
     Ty::U64, Ty::Str, Ty::String, Ty::Bytes, Ty::ByteSliceRef, Ty::Tuple3, Ty::Borrowed, Ty::Tree, Ty::VecU32, Ty::OptStr,
-    Ty::MapRec, Ty::Gappy, Ty::Shape, Ty::Unit,
+    Ty::MapRec, Ty::Gappy, Ty::Shape, Ty::Unit, Ty::SelfDesc, Ty::Embedded,
 ];
 
 pub trait FamVisitor {
@@ -823,6 +843,8 @@ pub fn with_family<V: FamVisitor>(ty: Ty, vis: V) -> V::Out {
         Ty::Gappy => vis.visit::<FGappy>(),
         Ty::Shape => vis.visit::<FShape>(),
         Ty::Unit => vis.visit::<FUnit>(),
+        Ty::SelfDesc => vis.visit::<FSelfDesc>(),
+        Ty::Embedded => vis.visit::<FEmbedded>(),
         other => panic!("harness: type {} has no decode family", other.name()),
     }
 }
